@@ -91,6 +91,7 @@ Context {F W : Type}.
 Variable f1 : F -> list Qc -> list Qc.
 Variable f2 : F -> list Qc -> nat -> list Qc.
 Variable wsem : W -> wndarg.
+Variable falsy : F -> bool.      (* truth value False of a stage callable (callable object with no items ...) *)
 Notation val := (val F W).
 Notation kwl := (kwl F W).
 
@@ -122,6 +123,10 @@ Definition compose_stages (size : nat) (tr itr bef aft : val) (func : F) (blk : 
   st1 aft (st2 itr (f1 func (st2 tr (st1 bef blk)))).
 
 Definition is_stage (v : val) : bool := match v with VNone | VFun _ => true | _ => false end.
+(* transform / inverse_transform: a callable with truth value False is outside the text (the library then
+   calls it without the size) *)
+Definition is_stage2 (v : val) : bool :=
+  match v with VNone => true | VFun f => negb (falsy f) | _ => false end.
 
 (* the blocks the overlap-add (or the caller, with ola=None) receives *)
 Definition stft_blocks_spec (size hop : nat) (w : option (list Qc)) (tr itr bef aft : val) (func : F)
@@ -151,7 +156,7 @@ Definition stft_promise (gc : Qc) (layers : list kwl) (func : F) (sig : list Qc)
     else
       match P "transform"%string, P "inverse_transform"%string, P "before"%string, P "after"%string, P "ola"%string with
       | Some tr, Some itr, Some bef, Some aft, Some ola =>
-        if negb (is_stage tr && is_stage itr && is_stage bef && is_stage aft) then PSilent
+        if negb (is_stage2 tr && is_stage2 itr && is_stage bef && is_stage aft) then PSilent
         else
           match spec_wnd size (wnd_of_val wsem (match P "wnd"%string with Some v => v | None => VNone end)) with
           | None => PSilent
